@@ -106,6 +106,13 @@ def batch_program(seqs, bi: int) -> Tuple[defx.Program, Dict[str, Any]]:
         root = dict(base)
         root["struct_defs"] = {**base["struct_defs"], **parts[0]["struct_defs"]}
         root["message_defs"] = {**base["message_defs"], **parts[0]["message_defs"]}
+        if (bi // len(SHAPES)) % 2 == 1:
+            # a legacy project file that still lists the core definition files (which every build includes anyway) before its own
+            # definitions: a second mention of a file already read changes nothing
+            import pyrtma
+
+            cdir = os.path.join(os.path.dirname(os.path.abspath(pyrtma.__file__)), "core_defs")
+            root = {"imports": [os.path.join(cdir, "core_defs.yaml"), os.path.join(cdir, "data_logger.yaml")], **root}
         files = {"root.yaml": root}
     elif shape == "chain":
         files = {"root.yaml": {"imports": ["a.yaml"], **clean(parts[0])}, "a.yaml": {"imports": ["sub/b.yaml"], **clean(parts[1])},
